@@ -4,6 +4,8 @@ import (
 	"context"
 	"crypto/tls"
 	"net"
+	"strings"
+	"sync"
 	"fmt"
 	"sync/atomic"
 	"time"
@@ -296,5 +298,84 @@ func c09ResumedSession(r *Result) {
 					Input: key, Expect: want, Actual: obs})
 			}
 		}
+	}
+}
+
+// c09ContextMutation: what a handler is handed is its request's own context. A handler that writes into it - narrows
+// SessionAuth for the rest of its batch, decorates SessionID, replaces RequestAuth - changes nothing for any LATER request: the
+// next request on the connection (and a request-authentication callback consulted for it) sees the session ID and the
+// session-auth value established for the connection, and its own request-auth value.
+func c09ContextMutation(r *Result) {
+	key := "a handler overwrites SessionAuth, SessionID and RequestAuth of the context it was given; then two more requests on the same connection (one with credentials) and one on another connection"
+	crumb("C09 " + key)
+	r.eval(key, true)
+	var mu sync.Mutex
+	var seen []string
+	note := func(format string, a ...interface{}) { mu.Lock(); seen = append(seen, fmt.Sprintf(format, a...)); mu.Unlock() }
+	s := &kmip.Server{}
+	var nconn int32
+	s.SessionAuthHandler = func(c net.Conn) (interface{}, error) { return fmt.Sprintf("admin-%d", atomic.AddInt32(&nconn, 1)), nil }
+	s.RequestAuthHandler = func(sc *kmip.SessionContext, a *kmip.Authentication) (interface{}, error) {
+		note("requestAuth sees sid=%s sa=%v", sc.SessionID, sc.SessionAuth)
+		return "user", nil
+	}
+	s.Handle(kmip.OPERATION_ACTIVATE, func(ctx *kmip.RequestContext, item *kmip.RequestBatchItem) (interface{}, error) {
+		note("activate sees sid=%s sa=%v ra=%v", ctx.SessionID, ctx.SessionAuth, ctx.RequestAuth)
+		ctx.SessionAuth = "restricted"
+		ctx.SessionID += "-decorated"
+		ctx.RequestAuth = "forged"
+		return kmip.ActivateResponse{UniqueIdentifier: "x"}, nil
+	})
+	s.Handle(kmip.OPERATION_GET, func(ctx *kmip.RequestContext, item *kmip.RequestBatchItem) (interface{}, error) {
+		note("get sees sid=%s sa=%v ra=%v", ctx.SessionID, ctx.SessionAuth, ctx.RequestAuth)
+		return kmip.GetResponse{ObjectType: kmip.OBJECT_TYPE_SYMMETRIC_KEY, UniqueIdentifier: "k"}, nil
+	})
+	l := rec.NewListener()
+	sc1, cc1 := rec.Pipe()
+	sc2, cc2 := rec.Pipe()
+	l.Push(rec.AcceptStep{Conn: rec.NewConn(sc1, 1)})
+	init := make(chan struct{})
+	ret := make(chan error, 1)
+	go func() { ret <- s.Serve(l, init) }()
+	<-init
+	exchange := func(c *rec.MemConn, creds bool, ops ...kmip.Enum) bool {
+		_ = c.SetDeadline(time.Now().Add(3 * time.Second))
+		req := kmip.Request{Header: kmip.RequestHeader{Version: kmip.ProtocolVersion{Major: 1, Minor: 4}, BatchCount: int32(len(ops))}}
+		if creds {
+			req.Header.Authentication = kmip.Authentication{CredentialType: kmip.CREDENTIAL_TYPE_USERNAME_AND_PASSWORD, CredentialValue: kmip.CredentialUsernamePassword{Username: "u", Password: "p"}}
+		}
+		for _, op := range ops {
+			var p interface{} = kmip.ActivateRequest{UniqueIdentifier: "a"}
+			if op == kmip.OPERATION_GET {
+				p = kmip.GetRequest{UniqueIdentifier: "k"}
+			}
+			req.BatchItems = append(req.BatchItems, kmip.RequestBatchItem{Operation: op, RequestPayload: p})
+		}
+		if err := kmip.NewEncoder(c).Encode(&req); err != nil {
+			return false
+		}
+		var resp kmip.Response
+		return kmip.NewDecoder(c).Decode(&resp) == nil
+	}
+	ok := exchange(cc1, false, kmip.OPERATION_ACTIVATE)
+	ok = exchange(cc1, false, kmip.OPERATION_GET) && ok
+	ok = exchange(cc1, true, kmip.OPERATION_GET) && ok
+	l.Push(rec.AcceptStep{Conn: rec.NewConn(sc2, 2)})
+	ok = exchange(cc2, false, kmip.OPERATION_GET) && ok
+	cc1.Close()
+	cc2.Close()
+	ctx, cancel := context.WithTimeout(context.Background(), 5*time.Second)
+	_ = s.Shutdown(ctx)
+	cancel()
+	<-ret
+	mu.Lock()
+	got := strings.Join(seen, "; ")
+	mu.Unlock()
+	want := "activate sees sid=00000001 sa=admin-1 ra=<nil>; get sees sid=00000001 sa=admin-1 ra=<nil>; requestAuth sees sid=00000001 sa=admin-1; get sees sid=00000001 sa=admin-1 ra=user; get sees sid=00000002 sa=admin-2 ra=<nil>"
+	r.Stats["context-mutation-scenarios"]++
+	if !ok {
+		r.find(Finding{Kind: "disagreement", What: "c09ContextMutation: an exchange failed (harness)", Input: key, Actual: got})
+	} else if got != want {
+		r.find(Finding{Kind: "violation", What: "a handler invocation (or the request-authentication callback) saw a session ID / session-auth / request-auth value that an EARLIER request's handler had written, not the one established for its own connection and request", Input: key, Expect: want, Actual: got})
 	}
 }
